@@ -245,7 +245,11 @@ def run(ctx):
                     why.append("address variable not set per block")
                 any_adv = [n for n in ast.walk(loop) if isinstance(n, ast.AugAssign) and src_of(n.target) == (addr_var or "?")] if loop is not None else []
                 adv = [n for n in any_adv if isinstance(n.op, ast.Add) and src_of(n.value) == n_]
-                if not any_adv:
+                bound_in_loop = loop is not None and addr_var is not None and any(
+                    isinstance(n, ast.Name) and n.id == addr_var and isinstance(n.ctx, ast.Store) for n in ast.walk(loop))
+                if not any_adv and addr_var is not None and loop is not None and not bound_in_loop:
+                    why.append("the address sent is the same for every block: nothing in the block loop binds or advances it")
+                elif not any_adv:
                     missing.append("no running address variable updated in the block loop")
                 elif not adv:
                     why.append("the address does not advance by the block length")
